@@ -68,8 +68,12 @@ PrefixesOk(e) ==      \* e.ks: the cut positions tried (all of 0..n-1 for ordina
 \* ---------------------------------------------------------------- C06
 ForwardOk(e) == LET d == Forward(e.buf)  r == e.res IN r.v = d.v /\ (d.v = "found" => r.dropped = d.dropped)
 PatternFreeBefore(junk, msg) == FindPattern(junk \o msg) = Len(junk) + 1
+\* whatever a parse with storage header returns, it is the message at the FIRST occurrence of the pattern (exactly the bytes in front
+\* of it are skipped); this does not depend on what the message is or whether the decoder would accept it elsewhere
+FirstOcc(buf, r) == r.v \in {"msg", "filtered"} => r.consumed = FrameOf(buf, TRUE, "parse").end
 JunkParseOk(e) ==     \* a = parse(junk ++ msg ++ sfx), b = parse(msg ++ sfx), both with storage header and the same (optional) filter
-  (PatternFreeBefore(e.junk, e.msg) /\ e.b.v \in {"msg", "filtered"}) =>
+  /\ FirstOcc(e.junk \o e.msg \o e.sfx, e.a) /\ FirstOcc(e.msg \o e.sfx, e.b)
+  /\ (PatternFreeBefore(e.junk, e.msg) /\ e.b.v \in {"msg", "filtered"}) =>
      /\ e.a.v = e.b.v /\ e.a.consumed = e.b.consumed + Len(e.junk)          \* same remainder
      /\ e.b.v = "msg" => e.a.m = e.b.m
      /\ e.b.v = "filtered" => e.a.n = e.b.n
@@ -77,12 +81,16 @@ JunkParseOk(e) ==     \* a = parse(junk ++ msg ++ sfx), b = parse(msg ++ sfx), b
 Num == INSTANCE Numerals
 JunkRepOk(e) == (e.fill \notin {68, 76, 84, 1} /\ e.b.v = "msg") => (e.a.v = "msg" /\ e.a.m = e.b.m /\ e.a.consumed = e.b.consumed + e.n)
 ForwardRepOk(e) == e.fill \notin {68, 76, 84, 1} => (e.res.v = "found" /\ Num!Eq(e.res.dropped, e.n) /\ e.res.rest_len = 4)
+RECURSIVE StreamOf(_, _)
+StreamOf(parts, i) == IF i > Len(parts) THEN <<>> ELSE parts[i].junk \o parts[i].msg \o StreamOf(parts, i + 1)
 RecoverOk(e) ==       \* parts: [junk, msg, alone = parse(msg)]; steps: the session over junk1 msg1 junk2 msg2 ... tail
   LET n == Len(e.parts)
       premise == /\ \A i \in 1..n : PatternFreeBefore(e.parts[i].junk, e.parts[i].msg) /\ e.parts[i].alone.v = "msg"
                                     /\ e.parts[i].alone.consumed = Len(e.parts[i].msg)
                  /\ FindPattern(e.tail) = 0 IN
-  premise => /\ Len(e.steps) = n + 1
+  /\ \A i \in 1..Len(e.steps) : FirstOcc(Rest(StreamOf(e.parts, 1) \o e.tail, e.steps[i].pos), e.steps[i].res)
+  /\ premise =>
+             /\ Len(e.steps) = n + 1
              /\ \A i \in 1..n : e.steps[i].res.v = "msg" /\ e.steps[i].res.m = e.parts[i].alone.m
                                 /\ e.steps[i].res.consumed = Len(e.parts[i].junk) + Len(e.parts[i].msg)
              /\ e.steps[n + 1].res.v \notin {"msg", "filtered"}
